@@ -6,4 +6,7 @@ def run(c):
     import clauses
     c.only_clauses = clauses.OWN["C10"]
     obl_phonetic.obl_userfiles(c, budget_s=900)
+    # "entries with empty strings": whatever the loading code lets through reaches the candidate assembly - at start-up or by a re-load
+    import obl_assembly as A
+    A.obl_empty_strings(c, A.conv_table_for([]), budget_s=600)
     c.outside("serde_json's own behaviour on malformed bytes (contract: it returns Err or a map); Data::new (bundled files, not per-user files)")
